@@ -211,7 +211,8 @@ def rule_decode_eval(P):
                         d0 = e_.get(nkey(["idx", a0, ["int", 0]]))
                         d1 = e_.get(nkey(["idx", a0, ["int", 1]]))
                         if d0 is None or d1 is None:
-                            return "impure"
+                            e_["#oob"] = "converts hexadecimal digits that were read behind the input"
+                            return 0
                         return int(bytes([d0 & 0xff, d1 & 0xff]), 16)
                     except Exception:
                         return "impure"
@@ -220,7 +221,9 @@ def rule_decode_eval(P):
             want = ref_decode(t, ctl)
             for o in outs:
                 bad = None
-                if o.kind == "unknown" and "holds no data" in (o.why or ""):
+                if o.env.get("#oob"):
+                    bad = ("read-behind-input", o.env["#oob"])
+                elif o.kind == "unknown" and "holds no data" in (o.why or ""):
                     bad = ("read-behind-input", "reads a byte behind the %d input bytes (%s)" % (len(t), o.why[:80]))
                 elif o.kind != "ret":
                     r.brk("evhttp_decode_uri_internal(%r, %d): %s %s" % (t, ctl, o.kind, o.why))
